@@ -27,7 +27,8 @@ generated Go transcoders `ReadResult<SRC>WriteResult<DST>` (and, on the implemen
   `JsonRoundTrip` at one value) next to C02's guard; `result_tl1_json_tl1_bool` discharges the hypothesis for functions
   returning `Bool` (the content of `Props.C05.prim_roundtrip_bool`; that module cannot be imported next to the TL2 lemmas,
   two helper lemmas share a name).  Full strength fails on the real code:
-  `result_tl1_json_tl1_fails_at_neg_zero` (L2), `result_tl1_json_tl1_fails_at_nan_payload` (L3).
+  `result_tl1_json_tl1_fails_at_nan_payload` (L3); the former L2 witness (`-0.0`) round-trips through JSON since the
+  generator repair (`result_tl1_json_tl1_neg_zero_roundtrips`).
   The JSON payload is a tree: Go's printer / the model's parser are outside these statements (tied, see the check).
 -/
 namespace TLVerif.Props.C07
@@ -348,7 +349,7 @@ theorem result_tl1_json_tl1_bool (cfg : Cfg) (d : Desc) (S : Nat → Bool) (hcl 
     (json_roundtrips_at_bool d fuel _ na ft tt b hty)
   exact ⟨pre, b, h1, h2, h3⟩
 
-/-! ### the inherited counter-examples: `-0.0` and NaN payloads -/
+/-! ### the inherited counter-example (NaN payloads) and the repaired one (`-0.0`) -/
 
 /-- the full-strength statement (JSON payload = the tree the first transcoder wrote) -/
 def ResultTL1JSONTL1 : Prop :=
@@ -381,11 +382,14 @@ theorem json_tl1_eval (cfg : Cfg) (d : Desc) (fuel : Nat) (f : FnD) (req : Val) 
 theorem jfill_flt (n : Nat) : jfillTL1 fltFn 4 fltF.s.resultTy [] (.struct [some (.nat n)]) = .ok (.struct [some (.nat n)]) := by
   simp [jfillTL1, jfillTL1.go, fltFn, fltF, Desc.get?, fieldPresent, natArgVals, unhide, Except.map]
 
-/-- **L2.** `x = -0.0` is omitted from the JSON (`x != 0` is false in Go) and reads back as `+0.0`. -/
-theorem result_tl1_json_tl1_fails_at_neg_zero :
-    transcode {} fltFn 4 fltF (.struct []) .tl1 .json (.bytes [1, 0, 0, 0, 0, 0, 0, 0x80]) = .ok (.json (.obj []), []) ∧
-    transcode {} fltFn 4 fltF (.struct []) .json .tl1 (.json (.obj [])) = .ok (.bytes [1, 0, 0, 0, 0, 0, 0, 0], []) :=
-  ⟨by rfl, json_tl1_eval {} fltFn 4 fltF _ _ [] _ _ _ rfl rfl (by rfl) (jfill_flt 0) (by rfl)⟩
+/-- former finding L2, repaired in the generator (a float is empty iff its bit pattern is zero): `x = -0.0` is written as `-0` and
+reads back with its sign bit — the old witness now round-trips. -/
+theorem result_tl1_json_tl1_neg_zero_roundtrips :
+    transcode {} fltFn 4 fltF (.struct []) .tl1 .json (.bytes [1, 0, 0, 0, 0, 0, 0, 0x80]) =
+      .ok (.json (.obj [(strBytes "x", .num ['-', '0'])]), []) ∧
+    transcode {} fltFn 4 fltF (.struct []) .json .tl1 (.json (.obj [(strBytes "x", .num ['-', '0'])])) =
+      .ok (.bytes [1, 0, 0, 0, 0, 0, 0, 0x80], []) :=
+  ⟨by rfl, json_tl1_eval {} fltFn 4 fltF _ _ [] _ _ _ rfl rfl (by rfl) (jfill_flt 0x80000000) (by rfl)⟩
 
 /-- **L3.** A NaN with a payload is written as `"NaN"` and reads back as Go's canonical NaN. -/
 theorem result_tl1_json_tl1_fails_at_nan_payload :
@@ -397,7 +401,7 @@ theorem result_tl1_json_tl1_fails_at_nan_payload :
 
 theorem result_tl1_json_tl1_fails : ¬ ResultTL1JSONTL1 := by
   intro h
-  obtain ⟨h1, h2⟩ := result_tl1_json_tl1_fails_at_neg_zero
+  obtain ⟨h1, h2⟩ := result_tl1_json_tl1_fails_at_nan_payload
   obtain ⟨pre, hp, ht⟩ := h _ _ _ _ _ _ _ _ h1
   rw [h2] at ht
   injection ht with ht
